@@ -5,6 +5,8 @@ package main
 import (
 	"fmt"
 	"go/types"
+	"os"
+	"runtime"
 	"strings"
 )
 
@@ -147,6 +149,23 @@ func ptrBoundAxiom(h Term, w Term) string {
 
 // havocAll forgets every heap; the watermark moves.
 func (x *Exec) havocAll(st *State) {
+	if os.Getenv("GOVC_DEBUG") != "" {
+		buf := make([]byte, 2048)
+		n := runtime.Stack(buf, false)
+		lines := strings.Split(string(buf[:n]), "\n")
+		var fr []string
+		for i := 3; i+1 < len(lines) && len(fr) < 3; i += 2 {
+			fr = append(fr, strings.TrimSpace(lines[i]))
+		}
+		where := ""
+		if len(st.frames) > 0 {
+			f := st.top()
+			if f.block != nil && f.pc < len(f.block.Instrs) {
+				where = x.P.pos(f.block.Instrs[f.pc].Pos())
+			}
+		}
+		debugf("havocAll in %s near %s via %s", x.fname, where, strings.Join(fr, " <- "))
+	}
 	// escaping locals (heap Allocs of the functions on the stack) that no closure has captured yet
 	// cannot be reached by a callee: their contents survive the havoc
 	type keep struct {
